@@ -4,6 +4,10 @@
  *   => P<status>                     the signature does not parse
  *      V<status>:<result>:<error>    KSI_SignatureVerifier_verify: status, finalResult.resultCode / errorCode (decimal)
  *      A<status>                     KSI_Signature_verifyWithPolicy with the same arguments (the other entry point)
+ *   w <policy> <sig-hex> <doc-imprint-hex|-> <level> <up:0|1>
+ *     as v; with up=1 the signature's own publication data is supplied as the user publication (the one way a
+ *     policy beyond the internal one can say OK without a network); additionally
+ *      G<status>                     KSI_verifyDataHash(ctx, sig, doc) (general policy, level 0), "G-" without a document hash
  */
 #include "common.h"
 #include <ksi/ksi.h>
@@ -24,7 +28,9 @@ static const KSI_Policy *policy_by_name(const char *n) {
 static void do_line(char *work, const char *orig) {
 	char *w[8]; int n = split_words(work, w, 8);
 	(void)orig;
-	if (n >= 5 && !strcmp(w[0], "v")) {
+	if (n >= 5 && (!strcmp(w[0], "v") || (n >= 6 && !strcmp(w[0], "w")))) {
+		int isw = !strcmp(w[0], "w"); int up = isw && !strcmp(w[5], "1");
+		KSI_PublicationRecord *prec = NULL; KSI_PublicationData *pdata = NULL;
 		const KSI_Policy *pol = policy_by_name(w[1]);
 		size_t len, dl; unsigned char *raw0 = unhex(w[2], &len), *raw = malloc(len ? len : 1); KSI_Signature *sig = NULL; int r;
 		KSI_DataHash *doc = NULL; unsigned long long level = strtoull(w[4], NULL, 10);
@@ -36,6 +42,10 @@ static void do_line(char *work, const char *orig) {
 			unsigned char *d = unhex(w[3], &dl);
 			if (KSI_DataHash_fromImprint(ctx, d, dl, &doc) != KSI_OK) { printf("BAD-DOC"); free(d); KSI_Signature_free(sig); free(raw0); free(raw); return; }
 			free(d);
+		}
+		if (up) {
+			KSI_Signature_getPublicationRecord(sig, &prec);
+			if (prec != NULL) KSI_PublicationRecord_getPublishedData(prec, &pdata);
 		}
 		{	/* a verification from another start level first: results memoised in the chains must not leak into the next one */
 			KSI_VerificationContext vc; KSI_PolicyVerificationResult *res = NULL;
@@ -49,20 +59,25 @@ static void do_line(char *work, const char *orig) {
 		{
 			KSI_VerificationContext vc; KSI_PolicyVerificationResult *res = NULL;
 			KSI_VerificationContext_init(&vc, ctx);
-			vc.signature = sig; vc.documentHash = doc; vc.docAggrLevel = level;
+			vc.signature = sig; vc.documentHash = doc; vc.docAggrLevel = level; vc.userPublication = pdata;
 			r = KSI_SignatureVerifier_verify(pol, &vc, &res);
 			if (r == KSI_OK && res != NULL) printf("V0:%d:%d", (int)res->finalResult.resultCode, (int)res->finalResult.errorCode);
 			else printf("V%d:-:-", r);
 			KSI_PolicyVerificationResult_free(res);
-			vc.signature = NULL; vc.documentHash = NULL;
+			vc.signature = NULL; vc.documentHash = NULL; vc.userPublication = NULL;
 			KSI_VerificationContext_clean(&vc);
 		}
 		{
 			KSI_VerificationContext vc;
 			KSI_VerificationContext_init(&vc, ctx);
+			vc.userPublication = pdata;
 			r = KSI_Signature_verifyWithPolicy(sig, doc, level, pol, &vc);
 			printf(" A%d", r);
+			vc.userPublication = NULL;
 			KSI_VerificationContext_clean(&vc);
+		}
+		if (isw) {
+			if (doc != NULL) printf(" G%d", KSI_verifyDataHash(ctx, sig, doc)); else printf(" G-");
 		}
 		KSI_DataHash_free(doc); KSI_Signature_free(sig); free(raw0); free(raw);
 	} else printf("BAD-OP");
